@@ -38,7 +38,14 @@ def check(tier, seed):
         for tag, pkb in (('rho=0', bytes(32) + bytes(rng.randrange(256) for _ in range(plen - 32))), ('all-00', bytes(plen)), ('all-FF', bytes([0xff]) * plen)):
             lines.append(f"drop_check {s} pk bytes:{pkb.hex()}"); meta.append(('pk bytes ' + tag, want_pk))
         sk0 = fam.keypair(s, bytes(32))[1]
-        for tag, skb in (('rho=0', bytes(32) + sk0[32:]), ('rho=K=tr=0', bytes(128) + sk0[128:]), ('K=FF', sk0[:32] + bytes([0xff]) * 32 + sk0[64:])):
+        sk_special = [('rho=0', bytes(32) + sk0[32:]), ('rho=K=tr=0', bytes(128) + sk0[128:]), ('K=FF', sk0[:32] + bytes([0xff]) * 32 + sk0[64:])]
+        # each byte-string field separately at a special value while the others stay secret (a wipe skipped on a "blank" or sentinel field shows only then)
+        for fname, a, b_ in (('K', 32, 64), ('tr', 64, 128)):
+            for vname, fill in (('00', lambda n: bytes(n)), ('FF', lambda n: bytes([0xff]) * n), ('00..01', lambda n: bytes(n - 1) + b'\x01')):
+                sk_special.append((f'{fname}={vname}', sk0[:a] + fill(b_ - a) + sk0[b_:]))
+        sk_special.append(('rho=FF', bytes([0xff]) * 32 + sk0[32:]))
+        sk_special.append(('s1=s2=0 (fields all eta)', sk0[:128] + R.sk_encode(p, sk0[:32], sk0[32:64], sk0[64:128], [[0] * 256] * p['l'], [[0] * 256] * p['k'], [[1] * 256] * p['k'])[128:]))
+        for tag, skb in sk_special:
             lines.append(f"drop_check {s} sk bytes:{skb.hex()}"); meta.append(('sk bytes ' + tag, want_sk))
     for prof in ('fast', 'checked'):
         outs = core.run_stream([core.RUST[prof]], lines)
@@ -54,7 +61,7 @@ def check(tier, seed):
                 rep.violation('implementation-vs-oracle', [l], {'profile': prof, 'output': o, 'oracle': 'every byte of the dropped key object must read zero'}, True)
             elif size != want:
                 rep.violation('implementation-vs-oracle', [l], {'profile': prof, 'output': o, 'oracle': f'size_of must equal the model layout {want} (no padding, no extra field)'}, True)
-            elif before < size // 3 and 'all-00' not in tag:
+            elif before < size // 3 and 'all-00' not in tag and 's1=s2=0' not in tag:
                 rep.violation('harness', [l], {'profile': prof, 'output': o, 'note': 'object was not populated before the drop: observation is blind'}, False)
             else:
                 rep.nontrivial.add((prof, l))
